@@ -327,12 +327,13 @@ fn arg_cases(rng: &mut Rng, n: u64) -> Vec<(Vec<String>, &'static str)> {
       _ => junk(rng).repeat(rng.below(5) as usize + 1),
     };
     let create = |extra: Vec<String>| -> Vec<String> {
-      let mut a: Vec<String> = ["torrent", "create", "--input", "data", "--dry-run"].iter().map(|s| s.to_string()).collect();
+      // (lints allowed, so that odd sizes reach the hasher instead of being turned away early)
+      let mut a: Vec<String> = ["torrent", "create", "--input", "data", "--dry-run", "--allow", "uneven-piece-length", "--allow", "small-piece-length"].iter().map(|s| s.to_string()).collect();
       a.extend(extra);
       a
     };
     // structured arguments: the documented grammar with extreme components
-    let big = ["0", "1", "15", "16", "17", "1023", "1024", "16383", "16384", "16385", "4294967295", "4294967296", "9007199254740993", "18014398509481984", "18446744073709551615", "18446744073709551616", "99999999999999999999999", "0.5", "1.5", "15.999999999999999", "16.000000000000001", "1e3", ".5", "5.", "-1", "+1", "1_000", "0x10", "١٢"];
+    let big = ["1048577", "3", "100", "4095", "0", "1", "15", "16", "17", "1023", "1024", "16383", "16384", "16385", "4294967295", "4294967296", "9007199254740993", "18014398509481984", "18446744073709551615", "18446744073709551616", "99999999999999999999999", "0.5", "1.5", "15.999999999999999", "16.000000000000001", "1e3", ".5", "5.", "-1", "+1", "1_000", "0x10", "١٢"];
     let suffixes = ["", "b", "kib", "mib", "gib", "tib", "pib", "eib", "KiB", "EIB", "k", "m", "g", "t", "p", "e", "kb", "zib", "ib", " kib", "\u{212a}ib"];
     let kind = rng.below(9);
     let s = if rng.chance(3, 5) {
@@ -365,7 +366,14 @@ fn arg_cases(rng: &mut Rng, n: u64) -> Vec<(Vec<String>, &'static str)> {
       7 => v.push((create(vec!["--announce-tier".into(), s]), "arg:url")),
       _ => {
         // magnet links: never with a tracker (no network)
-        let m = match rng.below(5) {
+        let m = match rng.below(7) {
+          5 => {
+            // a multi-byte character at every byte offset of the topic, raw or percent-encoded
+            let pre = &"urn:btih:0123456789abcdef"[..rng.below(14) as usize];
+            let ch = *rng.pick(&["é", "日", "🎉", "%C3%A9", "%E6%97%A5"]);
+            format!("magnet:?xt={pre}{ch}{}", "ab".repeat(rng.below(22) as usize))
+          }
+          6 => format!("magnet:?xt=urn:md5:é&xt=urn:btih:{}", "ab".repeat(20)),
           0 => s,
           1 => format!("magnet:?{s}"),
           2 => format!("magnet:?xt=urn:btih:{}", junk(rng)),
